@@ -13,7 +13,7 @@ var known = ev.Matcher[Case]{}
 
 const rule = "exhaustive: directory shapes (files x 0..3 statements per file, bounded per tier) x ExecuteN(0|1) x schedules of one or two faulty runs, " +
 	"each run failing the exec call at every index and/or the revision write at every index (mark-started, per-statement and deferred writes), " +
-	"followed by clean runs until ErrNoPendingFiles; directories of 3-6 files with every set of 1-3 checkpoint files (a fresh history starts at the last one, nothing before it may run or be recorded) x every single fault; random: up to 5 files x 5 statements, up to 3 faulty runs. " +
+	"followed by clean runs until ErrNoPendingFiles; directories of 3-6 files with every set of 1-3 checkpoint files (a fresh history starts at the last one, nothing before it may run or be recorded) x every single fault; random: up to 5 files x 5 statements, up to 3 faulty runs. The statement text carries a per-case number (97 values in the enumerated part, 1000 in the random part) so that the statement checksums recorded in the revisions vary. " +
 	"Oracle = invariants over the interleaved exec/write trace of a recording driver and a recording revision store. " +
 	"non-trivial = at least one injected fault actually fired; distinct key = (shape, n, fault schedule)"
 
@@ -69,7 +69,7 @@ func genCase(t *rapid.T) Case {
 			Write: rapid.IntRange(-1, total+2*len(shape)).Draw(t, "write"),
 		})
 	}
-	c := Case{Shape: shape, Runs: runs, N: rapid.IntRange(0, 2).Draw(t, "n")}
+	c := Case{Shape: shape, Runs: runs, N: rapid.IntRange(0, 2).Draw(t, "n"), Salt: rapid.IntRange(0, 999).Draw(t, "salt")}
 	if rapid.IntRange(0, 2).Draw(t, "withckpt") == 0 {
 		for f, n := range shape {
 			if n > 0 && rapid.IntRange(0, 2).Draw(t, "ckpt") == 0 {
@@ -117,7 +117,7 @@ func TestCheck(t *testing.T) {
 				for _, f1 := range fs {
 					i++
 					if col.Mine(i) {
-						if !ev.Each(col, "exhaustive-1-fault", Case{Shape: sh, Runs: []Fault{f1}, N: n}, check, known) {
+						if !ev.Each(col, "exhaustive-1-fault", Case{Shape: sh, Runs: []Fault{f1}, N: n, Salt: i % 97}, check, known) {
 							return
 						}
 					}
@@ -126,7 +126,7 @@ func TestCheck(t *testing.T) {
 						if !col.Mine(i) {
 							continue
 						}
-						if !ev.Each(col, "exhaustive-2-faults", Case{Shape: sh, Runs: []Fault{f1, f2}, N: n}, check, known) {
+						if !ev.Each(col, "exhaustive-2-faults", Case{Shape: sh, Runs: []Fault{f1, f2}, N: n, Salt: i % 97}, check, known) {
 							return
 						}
 					}
@@ -158,7 +158,7 @@ func TestCheck(t *testing.T) {
 					if !col.Mine(i) {
 						continue
 					}
-					if !ev.Each(col, "exhaustive-checkpoints-1-fault", Case{Shape: sh, Runs: []Fault{f1}, N: n, Ckpt: ck}, check, known) {
+					if !ev.Each(col, "exhaustive-checkpoints-1-fault", Case{Shape: sh, Runs: []Fault{f1}, N: n, Ckpt: ck, Salt: i % 97}, check, known) {
 						return
 					}
 				}
